@@ -1,6 +1,7 @@
 // C07 shim: one real raw_vector<int> operation from an arbitrary well-formed vector (capacity <= 4, symbolic contents),
 // set up through the public rep constructor; the resulting size / capacity / elements / returned iterator are handed out.
 #include <fcppt/container/raw_vector/object.hpp>
+#include <fcppt/container/raw_vector/comparison.hpp>
 #include <fcppt/container/raw_vector/rep_decl.hpp>
 #include <fcppt/container/raw_vector/rep_impl.hpp>
 #include <cstddef>
@@ -49,4 +50,12 @@ void vf_rv_swap(ST, std::size_t n2, elem b0, elem b1, outp *o, outp *o2){ MK; rv
 void vf_rv_ctor_count(std::size_t cnt, elem x, outp *o){ rv v(cnt, x); put(v, o, 0); }
 void vf_rv_ctor_range(std::size_t cnt, elem x0, elem x1, elem x2, outp *o){ elem const src[3] = {x0, x1, x2}; rv v(src, src + cnt); put(v, o, 0); }
 void vf_rv_ctor_list(elem x0, elem x1, outp *o){ rv v{x0, x1}; put(v, o, 0); }
+#define TWOV std::size_t n1, elem a0, elem a1, std::size_t n2, elem b0, elem b1
+#define MK2 rv const x{mk(2, n1, a0, a1, 0, 0)}; rv const y{mk(2, n2, b0, b1, 0, 0)}
+bool vf_rv_eq(TWOV){ MK2; return x == y; }
+bool vf_rv_ne(TWOV){ MK2; return x != y; }
+bool vf_rv_lt(TWOV){ MK2; return x < y; }
+bool vf_rv_le(TWOV){ MK2; return x <= y; }
+bool vf_rv_gt(TWOV){ MK2; return x > y; }
+bool vf_rv_ge(TWOV){ MK2; return x >= y; }
 }
